@@ -542,7 +542,7 @@ int main(int argc, char** argv)
     fflush(stdout);
     pid_t pid = fork();
     if (pid == 0) {
-      alarm(20);
+      alarm(90);
       int rc = 1;
       try {
         rc = run_case(v);
